@@ -173,6 +173,13 @@ func (ex *Exec) stepGuarded(fr *Frame, work *[]*Frame, outs *[]Outcome) (cont bo
 			case goPanic:
 				cont = ex.startPanic(fr, sig.Val, work, outs)
 			default:
+				if debugPanics {
+					ins := "?"
+					if fr.Block != nil && fr.Idx < len(fr.Block.Instrs) {
+						ins = fr.Block.Instrs[fr.Idx].String()
+					}
+					debugPrintf("  engine panic while in %s: %s\n", shortFn(fr.Fn), ins)
+				}
 				panic(r)
 			}
 		}
